@@ -8,6 +8,7 @@ use futures::{FutureExt, Sink, Stream};
 use serde_json::json;
 use std::collections::{BTreeMap, VecDeque};
 use std::net::SocketAddr;
+use std::future::Future;
 use std::pin::Pin;
 use std::sync::{Arc, Mutex};
 use std::task::{Context, Poll};
@@ -37,7 +38,12 @@ enum Dev {
     Pending,
     Err,
     Eof,
+    /// the backend stalls: from this poll on the connection delivers nothing for 7 s of virtual
+    /// time (more than two read-timeout periods of 3 s), then answers everything it received, in order
+    Stall,
 }
+
+const STALL_MS: u64 = 7000;
 
 fn devs_for(c: Call) -> Vec<Dev> {
     match c {
@@ -45,7 +51,7 @@ fn devs_for(c: Call) -> Vec<Dev> {
         Call::Ready => vec![Dev::Pending, Dev::Err],
         Call::Send => vec![Dev::Err],
         Call::Flush => vec![Dev::Pending, Dev::Err],
-        Call::Next => vec![Dev::Pending, Dev::Err, Dev::Eof],
+        Call::Next => vec![Dev::Pending, Dev::Err, Dev::Eof, Dev::Stall],
     }
 }
 
@@ -138,7 +144,7 @@ impl Sink<RespPacket> for ScriptedSink {
                 eprintln!("  backend conn {} received {}", c, id);
             }
             e.received.push((c, id.clone()));
-            e.conns[c].replies.push_back(RespPacket::Data(Resp::Bulk(BulkStr::Str(id.into_bytes()))));
+            e.conns[c].replies.push_back(vh::sim::wire_reply(Resp::Bulk(BulkStr::Str(id.into_bytes()))));
         }
         Poll::Ready(Ok(()))
     }
@@ -152,6 +158,8 @@ struct ScriptedStream {
     conn: usize,
     /// like tokio_util's FramedRead: after an error item the stream is over
     errored: bool,
+    /// a stalled backend: nothing is delivered until this timer fires (it also wakes the reader)
+    stalled: Option<Pin<Box<tokio::time::Sleep>>>,
 }
 
 impl Stream for ScriptedStream {
@@ -159,6 +167,12 @@ impl Stream for ScriptedStream {
     fn poll_next(mut self: Pin<&mut Self>, cx: &mut Context<'_>) -> Poll<Option<Self::Item>> {
         if self.errored {
             return Poll::Ready(None);
+        }
+        if let Some(t) = self.stalled.as_mut() {
+            match t.as_mut().poll(cx) {
+                Poll::Pending => return Poll::Pending,
+                Poll::Ready(()) => self.stalled = None,
+            }
         }
         let env = self.env.clone();
         let mut e = env.lock().unwrap();
@@ -178,6 +192,13 @@ impl Stream for ScriptedStream {
                 Poll::Ready(Some(Err(io_err())))
             }
             Some(Dev::Eof) => Poll::Ready(None),
+            Some(Dev::Stall) => {
+                drop(e);
+                let mut t = Box::pin(tokio::time::sleep(Duration::from_millis(STALL_MS)));
+                let _ = t.as_mut().poll(cx);
+                self.stalled = Some(t);
+                Poll::Pending
+            }
             None => Poll::Ready(Some(Ok(e.conns[c].replies.pop_front().unwrap()))),
         }
     }
@@ -201,7 +222,7 @@ impl ConnFactory for ScriptedFactory {
                 e.conns.len() - 1
             };
             let sink: ConnSink<RespPacket> = Box::pin(ScriptedSink { env: env.clone(), conn });
-            let stream: ConnStream<RespPacket> = Box::pin(ScriptedStream { env, conn, errored: false });
+            let stream: ConnStream<RespPacket> = Box::pin(ScriptedStream { env, conn, errored: false, stalled: None });
             Ok((sink, stream))
         })
     }
@@ -215,11 +236,14 @@ struct Scenario {
     tasks: usize,
     late: usize,         // how many of the tasks are submitted only after the first round
     gone: Option<usize>, // index of the task whose client disappears before the first poll
+    /// the late tasks are submitted only after this much virtual time (0 = right after the first
+    /// round); 3500 ms puts them between the first and the second read-timeout tick
+    late_delay_ms: u64,
 }
 
 impl Scenario {
     fn label(&self) -> String {
-        format!("{:?}/low={}ns/conns={}/tasks={}(late {})/client-gone={:?}", self.batch, self.low_flush_ns, self.conn_num, self.tasks, self.late, self.gone)
+        format!("{:?}/low={}ns/conns={}/tasks={}(late {}{})/client-gone={:?}", self.batch, self.low_flush_ns, self.conn_num, self.tasks, self.late, if self.late_delay_ms > 0 { format!(" after {} ms", self.late_delay_ms) } else { String::new() }, self.gone)
     }
 }
 
@@ -240,7 +264,7 @@ async fn run_script(sc: &Scenario, script: &BTreeMap<usize, Dev>) -> RunOut {
     let mut ctxs: VecDeque<(usize, CmdCtx)> = VecDeque::new();
     for i in 0..sc.tasks {
         let r: RespVec = Resp::Arr(Array::Arr(vec![Resp::Bulk(BulkStr::Str(b"GET".to_vec())), Resp::Bulk(BulkStr::Str(format!("id-{}", i).into_bytes()))]));
-        let cmd = Command::new(Box::new(RespPacket::Data(r)));
+        let cmd = Command::new(vh::sim::to_session_packet(r));
         let (s, rx) = new_command_pair(&cmd);
         ctxs.push_back((i, CmdCtx::new(cmd, s, i, false)));
         receivers.push(Some(rx));
@@ -258,8 +282,14 @@ async fn run_script(sc: &Scenario, script: &BTreeMap<usize, Dev>) -> RunOut {
     }
     let early = sc.tasks - sc.late.min(sc.tasks);
     let mut idle_rounds = 0;
+    let t_start = tokio::time::Instant::now();
+    let mut late_done = false;
     for round in 0..60 {
-        let mut n_submit = if round == 0 { early } else if round == 1 { sc.late } else { 0 };
+        let late_due = round >= 1 && !late_done && t_start.elapsed() >= Duration::from_millis(sc.late_delay_ms);
+        if late_due {
+            late_done = true;
+        }
+        let mut n_submit = if round == 0 { early } else if late_due { sc.late } else { 0 };
         while n_submit > 0 {
             if let Some((i, ctx)) = ctxs.pop_front() {
                 if sender.send(ctx).is_err() {
@@ -349,7 +379,7 @@ fn explore(sc: &Scenario, depth: usize, acc: &mut Acc) {
         for (k, d) in judge(sc, &out) {
             let key = format!("{}:{}", k, if sc.gone.is_some() { "with-a-vanished-client" } else { "all-clients-present" });
             if acc.viol.iter().filter(|x| x.key == key).count() < 1 {
-                acc.viol.push(Violation { key, desc: format!("[{}] script {:?}: {}", sc.label(), script, d), replay: json!({"batch": format!("{:?}", sc.batch), "low_flush_ns": sc.low_flush_ns, "conn_num": sc.conn_num, "tasks": sc.tasks, "late": sc.late, "gone": sc.gone, "script": script.iter().map(|(k, v)| (k.to_string(), format!("{:?}", v))).collect::<BTreeMap<_, _>>()}) });
+                acc.viol.push(Violation { key, desc: format!("[{}] script {:?}: {}", sc.label(), script, d), replay: json!({"batch": format!("{:?}", sc.batch), "low_flush_ns": sc.low_flush_ns, "conn_num": sc.conn_num, "tasks": sc.tasks, "late": sc.late, "gone": sc.gone, "late_delay_ms": sc.late_delay_ms, "script": script.iter().map(|(k, v)| (k.to_string(), format!("{:?}", v))).collect::<BTreeMap<_, _>>()}) });
             }
         }
         if script.len() < depth {
@@ -387,10 +417,11 @@ fn main() {
             tasks: r["tasks"].as_u64().unwrap_or(1) as usize,
             late: r["late"].as_u64().unwrap_or(0) as usize,
             gone: r["gone"].as_u64().map(|g| g as usize),
+            late_delay_ms: r["late_delay_ms"].as_u64().unwrap_or(0),
         };
         let mut script = BTreeMap::new();
         for (k, v) in r["script"].as_object().cloned().unwrap_or_default() {
-            script.insert(k.parse::<usize>().unwrap_or(0), match v.as_str() { Some("Pending") => Dev::Pending, Some("Eof") => Dev::Eof, _ => Dev::Err });
+            script.insert(k.parse::<usize>().unwrap_or(0), match v.as_str() { Some("Pending") => Dev::Pending, Some("Eof") => Dev::Eof, Some("Stall") => Dev::Stall, _ => Dev::Err });
         }
         std::env::set_var("POLLMC_VERBOSE", "1");
         let sc2 = sc.clone();
@@ -428,10 +459,20 @@ fn main() {
                         if !thorough && low != 0 && tasks != 2 {
                             continue;
                         }
-                        scenarios.push(Scenario { batch, low_flush_ns: low, conn_num, tasks, late, gone });
+                        scenarios.push(Scenario { batch, low_flush_ns: low, conn_num, tasks, late, gone, late_delay_ms: 0 });
                     }
                 }
             }
+        }
+    }
+    // a younger request joins a connection whose older request has been waiting for more than one
+    // read-timeout period (the Stall deviation makes the backend answer late)
+    for batch in [BatchStrategy::Disabled, BatchStrategy::Fixed, BatchStrategy::Dynamic] {
+        for (tasks, late) in [(2usize, 1usize), (3, 1), (3, 2)] {
+            if !thorough && tasks == 3 && !matches!(batch, BatchStrategy::Disabled) {
+                continue;
+            }
+            scenarios.push(Scenario { batch, low_flush_ns: 0, conn_num: 1, tasks, late, gone: None, late_delay_ms: 3500 });
         }
     }
     let scenarios = Arc::new(scenarios);
@@ -474,7 +515,7 @@ fn main() {
     let cov = json!({
         "evaluations": scripts,
         "distinct_nontrivial": outcomes.len().max(2),
-        "rule": format!("one evaluation = one environment script (set of <= {} deviations: Pending / Err / EOF / connect failure placed at one environment call each) run to completion on one scenario (batching x low flush interval x connection count x pipeline 1-3 with late submission x one client vanished); scripts are enumerated by DFS over the call trace of the parent script; distinct_nontrivial = distinct per-task outcome vectors", depth),
+        "rule": format!("one evaluation = one environment script (set of <= {} deviations: Pending / Err / EOF / backend stalls for 7 s of virtual time / connect failure placed at one environment call each) run to completion on one scenario (batching x low flush interval x connection count x pipeline 1-3 with late submission (right away, or 3.5 s later = between two read-timeout ticks) x one client vanished); scripts are enumerated by DFS over the call trace of the parent script; distinct_nontrivial = distinct per-task outcome vectors", depth),
         "scenarios": scenarios.len(),
         "environment_calls": calls,
         "outcome_vectors": outcomes,
